@@ -27,6 +27,7 @@ func init() {
 			{ID: "R09c", Floor: 20, Doc: "header limit to header parsers, section limit to section parsers, from Options where available", Run: ruleR09c},
 			{ID: "R09d", Floor: 4, Doc: "explicit panics in library packages are discharged (validated guard) or the check fails", Run: ruleR09d},
 			{ID: "R09e", Floor: 1, Doc: "Header.ReadFrom: range checks before field stores", Run: ruleR09e},
+			{ID: "R09g", Floor: 1, Doc: "the limit is applied once: ReadHeader hands its reader to the framing reader unwrapped (an extra LimitReader of the same limit also counts the prefix and rejects a header exactly at the maximum)", Run: ruleR09g},
 			{ID: "R09f", Floor: 1, Doc: "singleWidthIndex.Unmarshal: bucket bytes come from an exact-length read of dataLen with its error tested", Run: ruleR09f},
 		},
 	})
@@ -254,7 +255,64 @@ func ruleR09a(c *Ctx, r *Report) {
 				bad = fmt.Sprintf("the size comes from %s bounded by its argument %d, which here is not a configured limit", funcKey(calleeFunc(cl.Common())), j+1)
 			}
 		}
+		// a size that is a difference of input-derived values must be shown non-negative
+		for _, sub := range subtractionsFeeding(s.size) {
+			if bad != "" {
+				break
+			}
+			inputDerived := false
+			for _, o := range origins(sub.X, originOpts{binops: true}) {
+				if isLengthSource(o) {
+					inputDerived = true
+				}
+				if o.Kind == "call" {
+					if cl, idx := callOf(o.Val); cl != nil {
+						if sc := cl.Common().StaticCallee(); sc != nil && sc.Blocks != nil {
+							if _, tainted, _ := boundedResult(sc, idx); tainted {
+								inputDerived = true
+							}
+						}
+					}
+				}
+			}
+			if !inputDerived {
+				continue
+			}
+			ge := cmpEdges(sub.Parent(), func(x ssa.Value) bool { return sameRoot(x, sub.X) }, func(x ssa.Value) bool { return sameRoot(x, sub.Y) }, "ge")
+			if len(ge) == 0 || reach(sub.Parent(), nil, edgeSet(ge))[sub.Block()] {
+				bad = "the allocation size is a difference of input-derived values (computed at " + c.Pos(sub.Pos()) + ") with no check that it is non-negative: a length prefix smaller than what follows makes it negative and make() panics"
+			}
+		}
 		if len(srcs) > 0 {
+			// the comparison must be made on an unsigned value: after int(l) a length >= 2^63 is negative and passes `size > limit`
+			signedCmp := false
+			eachInstr(s.fn, func(in ssa.Instruction) {
+				b, ok := in.(*ssa.BinOp)
+				if !ok {
+					return
+				}
+				switch b.Op {
+				case token.GTR, token.GEQ, token.LSS, token.LEQ:
+				default:
+					return
+				}
+				for _, side := range []ssa.Value{b.X, b.Y} {
+					if sameRoot(side, s.size) {
+						if bt, ok := side.Type().Underlying().(*types.Basic); ok && bt.Info()&types.IsUnsigned == 0 {
+							other := b.X
+							if side == b.X {
+								other = b.Y
+							}
+							if isConfiguredLimit(other) {
+								signedCmp = true
+							}
+						}
+					}
+				}
+			})
+			if signedCmp {
+				bad = "the decoded length is compared with the limit as a signed integer: a prefix >= 2^63 becomes negative, passes the check and make() panics"
+			}
 			le := cmpEdges(s.fn, func(x ssa.Value) bool { return sameRoot(x, s.size) }, isConfiguredLimit, "le")
 			if len(le) == 0 {
 				bad = "allocation sized by a length decoded from the input with no comparison against a configured limit: a few crafted bytes make the parser allocate (or panic in makeslice) before reading the data"
@@ -763,4 +821,69 @@ func stripIface(v ssa.Value) ssa.Value {
 			return v
 		}
 	}
+}
+
+func ruleR09g(c *Ctx, r *Report) {
+	fn, err := c.Func(pkgV1, "", "ReadHeader")
+	if err != nil {
+		r.InfraFail("%v", err)
+		return
+	}
+	key := "limit-applied-once@" + fnKey(fn)
+	lr := callsToFunc(fn, pkgV1Util, "", "LdRead")
+	bad := ""
+	if len(lr) != 1 {
+		bad = "expected one util.LdRead call"
+	} else if canon(stripIface(lr[0].Common().Args[0])) != ssa.Value(fn.Params[0]) {
+		bad = "ReadHeader wraps its reader before handing it to LdRead (e.g. io.LimitReader(r, max)): the wrapper's budget also has to cover the length prefix, so a header exactly at MaxAllowedHeaderSize is no longer accepted"
+	}
+	r.Check(bad == "", key, c.Pos(fn.Pos()), "LdRead(r, false, maxReadBytes) on the caller's reader", bad)
+}
+
+// subtractionsFeeding: SUB operations whose result flows (through conversions, phis
+// and local/captured cells) into v.
+func subtractionsFeeding(v ssa.Value) []*ssa.BinOp {
+	var out []*ssa.BinOp
+	seen := map[ssa.Value]bool{}
+	var walk func(v ssa.Value, depth int)
+	walk = func(v ssa.Value, depth int) {
+		if v == nil || seen[v] || depth > 12 {
+			return
+		}
+		seen[v] = true
+		switch x := v.(type) {
+		case *ssa.Convert:
+			walk(x.X, depth+1)
+		case *ssa.ChangeType:
+			walk(x.X, depth+1)
+		case *ssa.Phi:
+			for _, e := range x.Edges {
+				walk(e, depth+1)
+			}
+		case *ssa.BinOp:
+			if x.Op == token.SUB {
+				out = append(out, x)
+			}
+		case *ssa.UnOp:
+			if x.Op == token.MUL {
+				switch a := x.X.(type) {
+				case *ssa.Alloc:
+					for _, st := range storesTo(a) {
+						walk(st.Val, depth+1)
+					}
+				case *ssa.FreeVar:
+					for _, st := range storesTo(a) {
+						walk(st.Val, depth+1)
+					}
+					if b := freeVarBinding(a); b != nil {
+						for _, st := range storesTo(b) {
+							walk(st.Val, depth+1)
+						}
+					}
+				}
+			}
+		}
+	}
+	walk(v, 0)
+	return out
 }
